@@ -34,10 +34,12 @@ META = {
             "unsupported operations, next request still answered.  Client: all programs of <=3 (quick) / "
             "<=4 (thorough) steps over {pipelined write small / 101 chunks, stat, listdir, read and "
             "prefetch+read on a second file, close}; every call must return under every explored "
-            "timing of the server's answers (delay bound 1 / 2).",
-    "note": "server half single-threaded through the real start_subsystem loop; client half: branching "
-            "at step boundaries, at SFTPFile._write's recv_ready() poll and everywhere while a prefetch "
-            "thread lives; MAX_REQUEST_SIZE scaled to 4 bytes",
+            "timing of the server's answers (deviation bound 1; thorough: 2 for programs without the "
+            "101-chunk write or of <= 2 steps).",
+    "note": "server half single-threaded through the real start_subsystem loop; client half: an explicit "
+            "'server catches up now' choice before every step and at every recv_ready() poll of "
+            "SFTPFile._write, plus full thread-schedule branching (delay bounded) during the prefetch+read "
+            "step; MAX_REQUEST_SIZE scaled to 4 bytes; _async_response's busy-wait gets a fair lock",
     "design_ref": "4/C30",
 }
 
@@ -615,11 +617,19 @@ def make_body(prog, base, info):
         mkfs_client(root)
 
         def poll_point():
+            # environment choice (costs one deviation): either the caller simply continues, or the
+            # server (and any prefetch thread) first runs until it has nothing left to do.  How far
+            # the server got only shows to the client through recv_ready() and through blocking
+            # reads, which wait for completion anyway - so "all or nothing" loses no behaviour.
             cur = S.CUR
-            if cur is not None and not cur.aborting:
-                was = cur.branching
-                cur.branching = True
-                cur.point("recv_ready")
+            if cur is None or cur.aborting:
+                return
+            was = cur.branching
+            cur.branching = False
+            try:
+                if cur.choose(2, ("caller continues", "server catches up first"), cost=1) == 1:
+                    cur.quiesce()
+            finally:
                 cur.branching = was
 
         csock, ssock = R.sched_pair()
@@ -651,8 +661,7 @@ def make_body(prog, base, info):
             csock.recv_ready = recv_ready
             for i, step in enumerate(prog):
                 info["at"] = i
-                s.branching = True
-                s.point("step")
+                poll_point()
                 s.branching = (step == "pread2")
                 try:
                     do_step(client, files, step, i)
@@ -737,9 +746,11 @@ def client_programs(tier):
 def run_client_chunk(item, acc):
     tier, progs = item
     base = tempfile.mkdtemp(prefix="c30c-", dir="/dev/shm")
-    bound = 1 if tier == "quick" else 2
     try:
         for prog in progs:
+            bound = 1
+            if tier != "quick" and ("w101" not in prog or len(prog) <= 2):
+                bound = 2
             info = {}
             body = make_body(prog, base, info)
             seen = set()
@@ -792,7 +803,8 @@ def client_half(ck, tier):
     if any("cap of" in n for n in acc.notes):
         ck.cap_hit("client schedule cap per program")
     ck.extra["client_bound"] = {"steps": STEPS, "max_program_length": 3 if tier == "quick" else 4,
-                                "delay_bound": 1 if tier == "quick" else 2,
+                                "delay_bound": "1" if tier == "quick" else
+                                "2 for programs without w101 and for programs of <= 2 steps, else 1",
                                 "programs": acc.counters.get("client_programs", 0),
                                 "schedules": acc.counters.get("client_schedules", 0),
                                 "MAX_REQUEST_SIZE": CHUNK}
